@@ -33,6 +33,9 @@ pub struct Cfg {
     pub seed: u64,
     pub workers: usize,
     pub verif_dir: PathBuf,
+    /// where evidence/ and replays/ are written (AVM_OUT_DIR, default = verif_dir); experiments on
+    /// patched trees use a scratch directory so that committed evidence is not overwritten
+    pub out_dir: PathBuf,
     pub started: Instant,
     /// VERIF_SCALE: multiplies workload sizes (testing aid; default 1.0)
     pub scale: f64,
@@ -158,7 +161,7 @@ pub fn conclude(cfg: &Cfg, sink: Sink, rep: Report) -> i32 {
     // replays
     let mut replay_paths = vec![];
     if violated {
-        let dir = cfg.verif_dir.join("replays");
+        let dir = cfg.out_dir.join("replays");
         let _ = std::fs::create_dir_all(&dir);
         for (n, v) in new_violations.iter().enumerate() {
             let p = dir.join(format!("{}-{}-{}.json", cfg.id, cfg.seed, n));
@@ -217,7 +220,7 @@ pub fn conclude(cfg: &Cfg, sink: Sink, rep: Report) -> i32 {
         "wall_s": (wall * 1000.0).round() / 1000.0,
         "violations": sink.violation_count,
     });
-    let evdir = cfg.verif_dir.join("evidence");
+    let evdir = cfg.out_dir.join("evidence");
     let _ = std::fs::create_dir_all(&evdir);
     let evpath = evdir.join(format!("{}.json", cfg.id));
     std::fs::write(&evpath, serde_json::to_string_pretty(&ev).unwrap()).expect("write evidence");
